@@ -142,6 +142,9 @@ VDec(j)     == Direct(W("vput", j, <<>>, Dec1(vec[j])), [op |-> "vdec", j |-> j,
 VBInc(j)    == Staged(W("vput", j, <<>>, vec[j] + 1), [op |-> "vbinc", j |-> j, v |-> vec[j] + 1])
 VBDec(j)    == Staged(W("vput", j, <<>>, Dec1(vec[j])), [op |-> "vbdec", j |-> j, v |-> Dec1(vec[j])])
 
+\* start items used together with a prefix have that prefix (what Iterate does with a start item outside
+\* the prefix range is not specified anywhere; observed: it may visit nothing)
+StartsFor(x, pfx) == {k \in KeysOf(x) : IsPrefixOf(pfx, k)}
 IterKinds == {<<"none", 0>>, <<"stop", 1>>, <<"stop", 2>>, <<"err", 1>>}
 KeyLists(x) == {<<a>> : a \in KeysOf(x)} \cup {<<a, b>> : a \in KeysOf(x), b \in KeysOf(x)}
 MaxField == 3          \* bound on counters (keeps the state space finite)
@@ -156,7 +159,7 @@ IndexReads ==
      \/ Count(x)
      \/ \E pfx \in PfxOf(x), skip \in BOOLEAN, rev \in BOOLEAN, ka \in IterKinds :
            \/ Iterate(x, pfx, <<>>, FALSE, skip, rev, ka[1], ka[2])
-           \/ \E start \in KeysOf(x) : Iterate(x, pfx, start, TRUE, skip, rev, ka[1], ka[2])
+           \/ \E start \in StartsFor(x, pfx) : Iterate(x, pfx, start, TRUE, skip, rev, ka[1], ka[2])
 FieldWrites ==
   \/ \E v \in FVals : UPut(v) \/ UBPut(v)
   \/ u64 < MaxField /\ (UInc \/ UBInc)
@@ -206,7 +209,7 @@ IterContractFor(m, pfx, start, hs, skip, rev, kind, at) ==
 IterContract ==
   \A x \in Idx : \A pfx \in PfxOf(x), skip \in BOOLEAN, rev \in BOOLEAN, ka \in IterKinds :
      /\ IterContractFor(idx[x], pfx, <<>>, FALSE, skip, rev, ka[1], ka[2])
-     /\ \A start \in KeysOf(x) : IterContractFor(idx[x], pfx, start, TRUE, skip, rev, ka[1], ka[2])
+     /\ \A start \in StartsFor(x, pfx) : IterContractFor(idx[x], pfx, start, TRUE, skip, rev, ka[1], ka[2])
 
 FirstLastContract ==
   \A x \in Idx : \A pfx \in PfxOf(x) :
